@@ -32,7 +32,18 @@ def c12_shared(R):
     tree = R.tree
     m = tree.mod(CO)
     fn = tree.func(CO, "CompositeFrontend._shared_solvers")
-    augs = [st for st in walk_no_nested(fn) if isinstance(st, ast.AugAssign) and ast.unparse(st.target) == "common_solvers"]
+    F = util.Frags(fn)
+    seeded = F.has("solvers_by_id = {id(s): s for s in self._solver_list}") and F.has("common_solvers = set(solvers_by_id.keys())")
+    R.check(
+        seeded,
+        m,
+        fn,
+        "the intersection starts from self's own children",
+        "_shared_solvers no longer starts from self's children",
+        construct="_shared_solvers: seed",
+    )
+    acc = F.code("common_solvers")
+    augs = [st for st in walk_no_nested(fn) if isinstance(st, ast.AugAssign) and ast.unparse(st.target) == acc]
     R.check(
         len(augs) == 1 and isinstance(augs[0].op, ast.BitAnd) and isinstance(augs[0]._parent, ast.For),
         m,
@@ -42,18 +53,10 @@ def c12_shared(R):
         f"of the merged solvers is treated as common to all (the others' copy-on-written versions are ignored)",
         construct="_shared_solvers: common_solvers &= o",
     )
-    init = [st for st in walk_no_nested(fn) if isinstance(st, ast.Assign) and ast.unparse(st.targets[0]) == "common_solvers"]
-    R.check(
-        len(init) == 1 and "solvers_by_id" in ast.unparse(init[0].value),
-        m,
-        fn,
-        "the intersection starts from self's own children",
-        "_shared_solvers no longer starts from self's children",
-        construct="_shared_solvers: seed",
-    )
+    every = F.has("other_sets = [{id(s) for s in cs._solver_list} for cs in others]")
     loop = [st for st in fn.body if isinstance(st, ast.For)]
     R.check(
-        len(loop) == 1 and ast.unparse(loop[0].iter) == "other_sets",
+        every and len(loop) == 1 and ast.unparse(loop[0].iter) == F.code("other_sets") and bool(augs) and ast.unparse(augs[0].value) == ast.unparse(loop[0].target),
         m,
         fn,
         "every other input takes part",
@@ -62,25 +65,33 @@ def c12_shared(R):
     )
     mc = tree.mod(CC)
     rc = tree.func(CC, "CompositedCacheMixin._remove_cached")
-    comps = [n for n in ast.walk(rc) if isinstance(n, ast.DictComp)]
-    ok = False
-    cond = None
-    if len(comps) == 1 and comps[0].generators[0].ifs:
-        cond = comps[0].generators[0].ifs[0]
-        t = ast.unparse(cond)
-        ok = t in ("not k & names", "not names & k", "k.isdisjoint(names)", "names.isdisjoint(k)", "not (k & names)")
+    # the filter, as a dict comprehension or as an explicit loop over the cache's items
+    cond, key = None, None
+    comps = [n for n in ast.walk(rc) if isinstance(n, ast.DictComp) and ast.unparse(n.generators[0].iter) == "self._merged_solvers.items()"]
+    loops = [n for n in ast.walk(rc) if isinstance(n, ast.For) and ast.unparse(n.iter) == "self._merged_solvers.items()"]
+    if len(comps) == 1 and len(comps[0].generators[0].ifs) == 1 and isinstance(comps[0].generators[0].target, ast.Tuple):
+        cond, key = comps[0].generators[0].ifs[0], ast.unparse(comps[0].generators[0].target.elts[0])
+    elif len(loops) == 1 and len(loops[0].body) == 1 and isinstance(loops[0].body[0], ast.If) and not loops[0].body[0].orelse and isinstance(loops[0].target, ast.Tuple):
+        cond, key = loops[0].body[0].test, ast.unparse(loops[0].target.elts[0])
+    R.need(cond is not None, "_remove_cached: filter over self._merged_solvers.items() not found")
+    t = ast.unparse(cond)
+    ok = t in (f"not {key} & names", f"not names & {key}", f"{key}.isdisjoint(names)", f"names.isdisjoint({key})", f"not ({key} & names)")
     R.check(
         ok,
         mc,
         rc,
         "_remove_cached keeps only cached children disjoint from the changed names",
-        f"_remove_cached keeps entries under `{norm(cond) if cond is not None else None}`: a cached combined child that "
+        f"_remove_cached keeps entries under `{t.replace(key, 'key')}`: a cached combined child that "
         f"overlaps a changed group must be evicted, or later queries are answered from a stale combination",
         construct="_remove_cached filter",
     )
     sc = tree.func(CC, "CompositedCacheMixin._store_child")
     R.check(
-        "self._remove_cached(ns.variables)" in ast.unparse(sc),
+        any(
+            isinstance(c.func, ast.Attribute) and c.func.attr == "_remove_cached" and len(c.args) == 1 and isinstance(c.args[0], ast.Attribute) and c.args[0].attr == "variables"
+            and ast.unparse(c.args[0].value) in [a.arg for a in sc.args.args]
+            for c in _calls(sc)
+        ),
         mc,
         sc,
         "storing a child evicts the cached combinations over its variables",
